@@ -37,7 +37,9 @@ def sig_of(kind, detail, case):
     return sig
 
 
-def run_property(chk, pid, want_parse=True, want_build=False, quick_n=6000, thorough_n=300000):
+def run_property(chk, pid, want_parse=True, want_build=False, quick_n=6000, thorough_n=300000, defer_problems=False, no_corr=False):
+    """defer_problems: do not report theorems that no longer check, return (problems, totals) for the caller to explain
+    (C01: raw-site coverage with a directed search).  no_corr: prove only, run no correspondence (a test switch of C01)."""
     import translator.gen_tags as gen_tags
     gen_tags.main([])
     # constants / limits the wire models restate, read from the current source and tied in Props/Limits/Wire.lean
@@ -55,6 +57,8 @@ def run_property(chk, pid, want_parse=True, want_build=False, quick_n=6000, thor
     if os.path.exists(corpus):
         ops += [l.rstrip("\n") for l in open(corpus) if l.strip() and not l.startswith("#")]
     gens = family_gens()
+    if no_corr:
+        ops, want_parse, want_build = [], False, False
     if want_parse:
         ops += wc.every_length_ops(upto=40 if chk.tier == "quick" else 96)
         ops += wc.gen_parse_ops(rng, n)
@@ -78,9 +82,9 @@ def run_property(chk, pid, want_parse=True, want_build=False, quick_n=6000, thor
         i += len(chunk)
         st = wc.run_wire(chk, pid, chunk, sig_of=sig_of)
         if st is None:
-            return
+            return (problems, total) if defer_problems else None
         total.update(st)
-    for p in problems:
+    for p in ([] if defer_problems else problems):
         if not (total.get("spec", 0) + total.get("fault", 0)):
             chk.violation("proof obligation no longer checks: " + p[:1500], ["theorem-or-audit-failure", p[:4000]], nofail=True)
     chk.extra["unmodelled_lines"] = total.get("unmodelled_lines", 0)
@@ -104,6 +108,8 @@ def run_property(chk, pid, want_parse=True, want_build=False, quick_n=6000, thor
         "UBSan's enum check is off: wire codes outside the enumerators are stored in enum-typed option fields by design",
     ]
     corr.finalize_cov(chk)
+    if defer_problems:
+        return problems, total
 
 
 def collections_counter():
